@@ -177,6 +177,17 @@ func (d *Device) invokeActionRelease(action config.Action) {
 	}
 }
 
+// releaseAxisAction registers that an axis no longer triggers the action, unless an action key still holds it
+func (d *Device) releaseAxisAction(action config.Action) {
+	for code := range d.keyTracker {
+		if a, ok := d.config.ActionMapping[code]; ok && a == action {
+			return
+		}
+	}
+	d.invokeActionRelease(action)
+	delete(d.actionTracker, action)
+}
+
 func (d *Device) checkDoubleActions() bool {
 	if len(d.actionTracker) > 1 {
 		switch {
